@@ -123,6 +123,11 @@ def wrap(
     if offset is None:
         offset = indent
 
+    # Expand tabs up front. `textwrap` expands them while wrapping the first
+    # line, so the wrapped first line would no longer have the length of the
+    # text it replaces and the slicing below would drop characters.
+    text = text.expandtabs()
+
     # Protocol buffers preserves single initial spaces after line breaks
     # when parsing comments (such as the space before the "w" in "when" here).
     # Re-wrapping causes these to be two spaces; correct for this.
@@ -153,6 +158,13 @@ def wrap(
             remaining_text = "".join(text.split("\n")[1:])
             if not is_list_item(remaining_text.strip()):
                 text = text.replace("\n", " ", 1)
+
+        # `textwrap` drops the leading whitespace of the first line when the
+        # first word does not fit next to it; drop it from the text as well
+        # so that the slicing below stays aligned with the wrapped line.
+        leading = len(first) - len(first.lstrip(" "))
+        if leading and not initial[0].startswith(" "):
+            text = text[leading:]
 
         # Save the new `first` line.
         first = f"{initial[0]}\n"
